@@ -33,7 +33,7 @@ chk("C25", "MIR CFG: limit comparisons edge-dominate the step (edge-removal reac
     "Trusted: rustc MIR; the blocking-API table. Deep value nesting inside one step is reported by the thorough tier as a known finding.",
     "DESIGN.md section 4 C25")
 
-chk("C08", "MIR CFG must-pass-through: every non-step exit of the interpreter loop restores the popped expression; no-effect-before-check; flag consumed once; RE-ENTRY (Interrupted arms of the session front ends hand no &mut Env to anything); NAMESPACE-WRITERS shared with C10; the stack-writer rules of C02/C09 (nothing but reviewed writers touches pending entries and operands)",
+chk("C08", "MIR CFG must-pass-through: every non-step exit of the interpreter loop restores the popped expression; no-effect-before-check; flag consumed once; RE-ENTRY (Interrupted arms of the session front ends hand no &mut Env to anything); NAMESPACE-WRITERS shared with C10; the stack-writer rules of C02/C09 (nothing but reviewed writers touches pending entries and operands); ENTRY-INDEPENDENT (no branch inside the interpreter loop depends on a value computed before the loop); the flag rules accept a per-step helper under the same obligations",
     "For every path of eval::eval from the pop of (state, expr) to a return that skips the step, restore_stack_frame(pair, []) is on the path, nothing but the tick counter is written before the checks, and the interrupt flag is cleared only on the Interrupted edge; so the machine state at an interrupt equals the state before the step, for every step of every program.",
     "Trusted: rustc MIR. Decides the state-restoration clause; equality of printed output additionally assumes steps are deterministic.",
     "DESIGN.md section 4 C08")
@@ -78,22 +78,22 @@ chk("C15", "schema conformance: rows of unify matched against upper-bound rows o
     "Trusted: syn parse, rustc MIR call graph. How each caller uses a successful result (hover text) is not decided; what it substitutes on failure is (FAIL-TOP).",
     "DESIGN.md section 4 C15")
 
-chk("C03", "table agreement (lexer operator constants / token->kind match / enum variants / evaluator dispatch and helper arms) + infix-loop shape of parse_expression (accumulator fold, rhs parser cannot absorb an operator, rotation idiom rejected); OPERAND-CLOSED (MIR CFG: every operand parser that calls parse_expression looks at the next token afterwards; statement forms are the reviewed exceptions); USED-FLAG-RECURSE (the value-usage pass visits every sub-expression field of every Expression_ variant)",
+chk("C03", "table agreement (lexer operator constants / token->kind match / enum variants / evaluator dispatch and helper arms) + infix-loop shape of parse_expression (accumulator fold, rhs parser cannot absorb an operator, rotation idiom rejected); OPERAND-CLOSED (MIR CFG: every operand parser that calls parse_expression looks at the next token afterwards; statement forms are the reviewed exceptions); USED-FLAG-RECURSE (the value-usage pass visits every sub-expression field of every Expression_ variant); DONE-MEANS-VALUE (no path of eval_expr marks its expression done and schedules an unevaluated sub-expression; shared with C27); LAYOUT-FREE (who-may: only two reviewed parser functions branch on line numbers)",
     "The grouping structure is decided for chains of any length: a single loop folding BinaryOperator(acc, op, rhs) with an rhs parser that cannot consume a following operator yields left nesting by induction, with one precedence level; the four operator tables agree row by row. Values chains evaluate to are not computed.",
     "Trusted: syn parse. The shape is a sufficient condition; an equivalent but differently structured parser would be reported (fail closed).",
     "DESIGN.md section 4 C03")
 
-chk("C04", "MIR assert inventory (no overflow/div assert on signed ints reachable from eval, interval table re-checked) + syntax op-table per operator arm, zero/negative guards, sibling agreement of += with + (operation and store), UPDATE-ORDER, operand order; ERROR-RESTORE (error exits of the arithmetic helpers hand back the popped operands in push order; shared with C07's symbolic sequence analysis)",
+chk("C04", "MIR assert inventory (no overflow/div assert on signed ints reachable from eval, interval table re-checked) + syntax op-table per operator arm, zero/negative guards, sibling agreement of += with + (operation and store), UPDATE-ORDER, operand order; ERROR-RESTORE (error exits of the arithmetic helpers hand back the popped operands in push order; shared with C07's symbolic sequence analysis); DUP-ORDER (operands an arm of eval_expr pops and pushes back keep their stack order)",
     "Necessary structural clauses for every operator arm and every signed arithmetic site reachable from the evaluator: documented Rust operation on (lhs, rhs), guards present, unrepresentable results raise, compound assignment agrees with the binary operator. Numerical results are taken from Rust's definitions, not computed.",
     "Trusted: rustc MIR (overflow checks on), syn parse, Rust's wrapping_*/checked_* semantics. One known finding: `x += e` reads x after evaluating e (differs from `x = x + e` when e assigns x).",
     "DESIGN.md section 4 C04")
 
-chk("C06", "abstract simulation of MIR under fixed enum discriminants: owes-table of eval_expr (blocks popped per (variant, state)) vs blocks popped by eval_break/eval_continue per discarded or re-scheduled entry (conservation), stop-only-at-running-loop; PUSH-PAIRING (per-step conservation: blocks pushed - popped = owed by what the step schedules - owed by its entry, with helper summaries); RETURN-CLEARS (pending entries cleared and inner binding blocks dropped); CONSUME-NEXT-BLOCK (eval_block moves bindings_next_block out); BLOCK-SCOPE-ORDER",
+chk("C06", "abstract simulation of MIR under fixed enum discriminants: owes-table of eval_expr (blocks popped per (variant, state)) vs blocks popped by eval_break/eval_continue per discarded or re-scheduled entry (conservation), stop-only-at-running-loop; PUSH-PAIRING (per-step conservation: blocks pushed - popped = owed by what the step schedules - owed by its entry, with helper summaries); RETURN-CLEARS (pending entries cleared and inner binding blocks dropped); CONSUME-NEXT-BLOCK (eval_block moves bindings_next_block out); BLOCK-SCOPE-ORDER; FRAME-COVER (shared with C10: pop_to_toplevel resets the surviving frame)",
     "The push/pop discipline of binding blocks is decided for every (Expression_ variant, state) entry and every path of the unwinding code: what an entry's own arm would pop is exactly what break/continue pop when they remove it, they stop only at the loop whose body runs, and return drops the whole frame. That discipline is what makes a block's variables invisible after any exit.",
     "Trusted: rustc MIR; the abstraction that an entry in a state that pops a block exists only while that block is pushed. Name-resolution results are not computed.",
     "DESIGN.md section 4 C06")
 
-chk("C07", "symbolic sequence analysis over the syntax tree: values popped vs values handed to RestoreValues at each of ~150 error sites (reverse-equality), callee-pop summaries, inherited context at the two dispatchers; MIR: effect-before-error on eval_expr's fallible calls, Err-edge restore in eval::eval; EXIT-RESTORE (return value pushed back before every frame-exit error, through helpers); RESUME-ENTRY (loop-bypassing return only at top level); the restored value goes back into the frame it was popped from",
+chk("C07", "symbolic sequence analysis over the syntax tree: values popped vs values handed to RestoreValues at each of ~150 error sites (reverse-equality), callee-pop summaries, inherited context at the two dispatchers; MIR: effect-before-error on eval_expr's fallible calls, Err-edge restore in eval::eval; EXIT-RESTORE (return value pushed back before every frame-exit error, through helpers); RESUME-ENTRY (loop-bypassing return only at top level); the restored value goes back into the frame it was popped from; the pop/restore walk substitutes local vector-builder helpers and models Vec::reverse",
     "For every error path of every step function the values pushed back are exactly the values popped, in reverse order, and no continuation stays scheduled when a helper fails; so re-running the failed step sees the same machine state. Decided per site for all programs; message text and side effects of re-running are not decided.",
     "Trusted: syn parse, rustc MIR; the walker's idiom set (vec! literals, pushes, for-loops over args, mirrored pop vectors, optional pop groups) - a construction outside it is reported, not assumed.",
     "DESIGN.md section 4 C07")
@@ -133,17 +133,17 @@ chk("C29", "MIR unit dataflow (bytes / chars / UTF-16 code units; call-site-to-p
     "Trusted: rustc MIR; std's encode_utf16/len_utf16/char_indices; clients send UTF-16 positions. Line arithmetic (which line an offset is on, CRLF handling) and the refactorings' own output are not decided; one reviewed exception (garden_pos_to_lsp_range_no_src, never used for edits).",
     "DESIGN.md section 4 C29")
 
-chk("C19", "MIR edge dominance and operand provenance: SELECT-BY-DEFINITION (the rename visitor records symbol.position only on the equal edge of the comparison between the definition position looked up under symbol.id and the target's); DEF-SOURCE (set_binding / LocalBindings::set store the symbol's own position for the same symbol; every use site stores, under the use's id, what LocalBindings::get of the use's own name returned; who-may-write id_to_def_pos); LOOKUP-INNERMOST (reversed block iteration); SCOPE-PAIRING (path-count dataflow: enter_block/exit_block balanced on every path of every type-checker function); APPLY-RANGE (splice loop writes the new name once per position, between start_offset and end_offset); SAME-CORE (call graph: LSP and command line share rename_positions)",
+chk("C19", "MIR edge dominance and operand provenance: SELECT-BY-DEFINITION (the rename visitor records symbol.position only on the equal edge of the comparison between the definition position looked up under symbol.id and the target's); DEF-SOURCE (set_binding / LocalBindings::set store the symbol's own position for the same symbol; every use site stores, under the use's id, what LocalBindings::get of the use's own name returned; who-may-write id_to_def_pos); LOOKUP-INNERMOST (reversed block iteration); SCOPE-PAIRING (path-count dataflow: enter_block/exit_block balanced on every path of every type-checker function); APPLY-RANGE (splice loop writes the new name once per position, between start_offset and end_offset); SAME-CORE (call graph: LSP and command line share rename_positions; handle_rename converts with the text-taking converter); who-may-call: only set_binding puts a definition in scope",
     "Structural necessary conditions of 'exactly the occurrences of one variable', each decided on the code for all programs: occurrences are selected by definition identity, never by spelling; the definition-position table is filled from the scope lookup of the symbol's own name, innermost block first; block scopes are balanced; the splice touches exactly the recorded ranges; server and command line share the computation. Which definition the language's scope rules bind a use to on a given program, and the output of the renamed program, are not decided.",
     "Trusted: rustc MIR; the visitor reaches every symbol occurrence; the new name is fresh (given by the property). Was 'not applicable' in the plan; claimed for these clauses only.",
     "DESIGN.md section 4 C19")
 
-chk("C21", "MIR operand provenance and region rules on the PreludeDbg arm of eval_built_in_call: DBG-IDENTITY (every push_value in the arm pushes a clone of arg_values[0]; at most one per path; no pop, no binding write), DBG-STDERR-ONLY (every output site of the arm is _eprint, a PrintedStderr response or the nREPL stderr buffer); WRAP-SPLICE (the slices in wrap_in_dbg are [..start_offset], [start_offset..end_offset], [end_offset..] of one position around the literal `dbg(`); SAME-CORE (call graph)",
-    "Structural necessary conditions of the wrap-in-dbg half only: `dbg(e)` evaluates to the value of `e`, its printing goes to standard error in every output mode, and the edit wraps exactly the selected expression's byte range. The add-type-annotation half and the equality of the two programs' outputs are not decided.",
+chk("C21", "MIR operand provenance and region rules on the PreludeDbg arm of eval_built_in_call: DBG-IDENTITY (every push_value in the arm pushes a clone of arg_values[0]; at most one per path; no pop, no binding write), DBG-STDERR-ONLY (every output site of the arm is _eprint, a PrintedStderr response or the nREPL stderr buffer); WRAP-SPLICE (the slices in wrap_in_dbg are [..start_offset], [start_offset..end_offset], [end_offset..] of one position around the literal `dbg(`); SAME-CORE (call graph); ANNOTATION-OFFERED (annotation_src prints a type only outside its Error arm and on the false edge of is_no_value())",
+    "Structural necessary conditions of the wrap-in-dbg half, plus one shape clause of the other half: `dbg(e)` evaluates to the value of `e`, its printing goes to standard error in every output mode, and the edit wraps exactly the selected expression's byte range. The add-type-annotation half and the equality of the two programs' outputs are not decided.",
     "Trusted: rustc MIR; `dbg` is bound to PreludeDbg; the call machinery evaluates a built-in's argument once (C02/C07). Was 'not applicable' in the plan; claimed for these clauses only.",
     "DESIGN.md section 4 C21")
 
-chk("C27", "MIR dominance and operand provenance: STOP-AFTER-VALUE (the early return of the interpreter loop is dominated by the step, by the true edge of stop_at_expr_id == stepped expression id, and by the true edge of done_subexpressions(); the value is evalled_values.last()); OBSERVED-USED (set_observed_expr_value_used dominates every stop-id store, same id); INNERMOST (reversed walk of the ids at the offset); STOP-ID-SCOPED (every Some store to stop_at_expr_id in eval_up_to is followed by a None store on every path to a return)",
+chk("C27", "MIR dominance and operand provenance: STOP-AFTER-VALUE (the early return of the interpreter loop is dominated by the step, by the true edge of stop_at_expr_id == stepped expression id, and by the true edge of done_subexpressions(); the value is evalled_values.last()); OBSERVED-USED (set_observed_expr_value_used dominates every stop-id store, same id); INNERMOST (reversed walk of the ids at the offset); STOP-ID-SCOPED (every Some store to stop_at_expr_id in eval_up_to is followed by a None store on every path to a return); DONE-MEANS-VALUE; EVERY-ARM-COMPLETES (every arm of eval_expr, and every Ok path of the stepper helpers, marks the expression done or schedules it again); MARK-REACHES-ALL (MutVisitor::visit_expr_ descends into every expression-bearing variant)",
     "Structural necessary conditions of eval-up-to reporting the observed expression's own, completed value, decided on the code for all programs and positions. That the reported value equals the value of a plain run (argument reuse, loops, the for-in special case) and when an error is reported are not decided.",
     "Trusted: rustc MIR; find_item_at lists enclosing items outermost first. Was 'not applicable' in the plan; claimed for these clauses only.",
     "DESIGN.md section 4 C27")
